@@ -11,6 +11,7 @@
 Parse and translate XML Schema regular expressions to Python regex syntax.
 """
 import re
+from string import ascii_letters
 from sys import maxunicode
 
 from .codepoints import RegexError
@@ -269,6 +270,10 @@ def translate_pattern(pattern: str, flags: int = 0, xsd_version: str = '1.0',
                 else:
                     regex.append(p_shortcut_group)
 
+            elif pattern[pos] in ascii_letters and pattern[pos] not in 'nrtsSdDwW':
+                # Not an XSD escape: for Python it's an error or has another meaning (\a, \f, \v)
+                msg = "invalid escape sequence {!r} at position {}: {!r}"
+                raise RegexError(msg.format('\\' + pattern[pos], pos - 1, pattern))
             else:
                 regex.append('\\%s' % pattern[pos])
         elif ch == '#' and flags & re.VERBOSE:
